@@ -235,4 +235,103 @@ Section SeqProofs.
           destruct IH as [Eo [E2 E3]]. split; [f_equal; exact Eo|auto].
   Qed.
 
+
+  (* ---------------------------------------------------------------- several handles, at most one per graph.
+     With the wrapped store's graphs independent of one another (a write to graph g does not change what any lookup
+     on another graph returns) every history that never opens the same graph twice is answered exactly like the
+     wrapped store: the second-handle defect needs two handles OF THE SAME GRAPH. *)
+  Definition frame :=
+    forall s g w g' q, g <> g' -> inner_read (fst (inner_step s g (Write w))) g' q = inner_read s g' q.
+
+  Hypothesis Hframe : frame.
+
+  Fixpoint opens (ops : list (@hop gid wreq query)) : list gid :=
+    match ops with
+    | [] => []
+    | HOpen g :: r => g :: opens r
+    | HDo _ _ :: r => opens r
+    end.
+
+  Lemma upd_nth_In_idx : forall (A : Type) (l : list A) i x y,
+    In y (upd_nth i x l) -> y = x \/ exists j, j <> i /\ nth_error l j = Some y.
+  Proof.
+    induction l as [|z l IH]; intros i x y H; cbn in H.
+    - destruct i; contradiction.
+    - destruct i; cbn in H.
+      + destruct H as [H|H]; [left; auto|]. right. apply In_nth_error in H. destruct H as [n Hn].
+        exists (S n). split; [discriminate|exact Hn].
+      + destruct H as [H|H]; [right; exists 0; split; [discriminate|subst; reflexivity]|].
+        destruct (IH _ _ _ H) as [H1|[j [Hj Hn]]]; [left; exact H1|].
+        right. exists (S j). split; [congruence|exact Hn].
+  Qed.
+
+  Lemma NoDup_app_l : forall (A : Type) (l l' : list A), NoDup (l ++ l') -> NoDup l.
+  Proof.
+    induction l as [|x l IH]; intros l' H; [constructor|].
+    cbn in H. inversion H as [|? ? Hn Hd]; subst. constructor.
+    - intro Hin. apply Hn. apply in_or_app. left. exact Hin.
+    - eapply IH. exact Hd.
+  Qed.
+
+  Lemma coh_frame : forall s g w h, coh s h -> h_gid h <> g -> coh (fst (inner_step s g (Write w))) h.
+  Proof.
+    intros s g w h [Hl He] Ne. split.
+    - intros q x l Dq Ex F. rewrite Hframe by (intro E; apply Ne; symmetry; exact E). apply Hl; assumption.
+    - intros q b Dq Ex F. rewrite Hframe by (intro E; apply Ne; symmetry; exact E). apply He; assumption.
+  Qed.
+
+  Lemma distinct_graphs_run :
+    forall ops s hs, coh_all s hs -> NoDup (map h_gid hs ++ opens ops) -> Forall hop_in_D ops ->
+      let '(m, out) := memo_run (mkM s hs) ops in
+      let '(r, out') := ref_run (mkR s (map h_gid hs)) ops in
+      out = out' /\ m_inner m = r_inner r.
+  Proof.
+    induction ops as [|o ops IH]; intros s hs C ND DD.
+    - cbn. auto.
+    - inversion DD as [|? ? DD1 DD2]; subst.
+      cbn [Memo.memo_run Memo.ref_run].
+      destruct o as [g|i r].
+      + cbn [Memo.memo_step Memo.ref_step m_inner m_handles r_inner r_gids].
+        assert (C' : coh_all s (hs ++ [fresh g])).
+        { intros h Hin. apply in_app_or in Hin. destruct Hin as [Hin|[Hin|[]]]; [apply C; exact Hin|subst; apply coh_fresh]. }
+        assert (ND' : NoDup (map h_gid (hs ++ [fresh g]) ++ opens ops)).
+        { rewrite map_app. cbn [map h_gid fresh opens] in *. rewrite <- app_assoc. exact ND. }
+        specialize (IH s (hs ++ [fresh g]) C' ND' DD2).
+        rewrite map_app in IH. cbn [map h_gid fresh] in IH.
+        destruct (memo_run (mkM s (hs ++ [fresh g])) ops) as [m out].
+        destruct (ref_run (mkR s (map h_gid hs ++ [g])) ops) as [rr out'].
+        destruct IH as [Eo E1]. split; [f_equal; exact Eo|exact E1].
+      + cbn [Memo.memo_step Memo.ref_step m_inner m_handles r_inner r_gids opens] in *.
+        rewrite nth_error_map.
+        destruct (nth_error hs i) as [h|] eqn:N; cbn [option_map].
+        * assert (Ch : coh s h) by (apply C; eapply nth_error_In; exact N).
+          pose proof (handle_step_correct s h r Ch) as HS.
+          destruct (handle_step s h r) as [[s' h'] a] eqn:E.
+          destruct HS as [E1 [C' G']]; [intros q' Eq; subst r; exact DD1|].
+          rewrite <- E1.
+          assert (CA : coh_all s' (upd_nth i h' hs)).
+          { intros y Hy. apply upd_nth_In_idx in Hy. destruct Hy as [Hy|[j [Hj Hn]]]; [subst; exact C'|].
+            assert (Cy : coh s y) by (apply C; eapply nth_error_In; exact Hn).
+            destruct r as [w|q].
+            - assert (s' = fst (inner_step s (h_gid h) (Write w))) by (rewrite <- E1; reflexivity). subst s'.
+              apply coh_frame; [exact Cy|].
+              apply NoDup_app_l in ND. rewrite NoDup_nth_error in ND.
+              intro Eg. apply Hj. apply ND.
+              + rewrite map_length. apply nth_error_Some. rewrite Hn. discriminate.
+              + rewrite !nth_error_map, Hn, N. cbn. rewrite Eg. reflexivity.
+            - assert (s' = s) by (pose proof (Hpure s (h_gid h) q) as P; rewrite <- E1 in P; exact P).
+              subst s'. exact Cy. }
+          assert (ND' : NoDup (map h_gid (upd_nth i h' hs) ++ opens ops))
+            by (rewrite (upd_nth_gids hs i h h' N G'); exact ND).
+          specialize (IH s' (upd_nth i h' hs) CA ND' DD2).
+          rewrite (upd_nth_gids hs i h h' N G') in IH.
+          destruct (memo_run (mkM s' (upd_nth i h' hs)) ops) as [m out].
+          destruct (ref_run (mkR s' (map h_gid hs)) ops) as [rr out'].
+          destruct IH as [Eo E2]. split; [f_equal; exact Eo|exact E2].
+        * specialize (IH s hs C ND DD2).
+          destruct (memo_run (mkM s hs) ops) as [m out].
+          destruct (ref_run (mkR s (map h_gid hs)) ops) as [rr out'].
+          destruct IH as [Eo E2]. split; [f_equal; exact Eo|exact E2].
+  Qed.
+
 End SeqProofs.
